@@ -147,3 +147,551 @@ theorem get_comm (s : State) (a b : Str) : get s a b = get s b a := by
   unfold get; rw [norm_comm]
 
 end Hpv.Sim
+
+namespace Hpv.Sim
+
+/-! ### stored pairs, `items`, `len` -/
+
+theorem mem_iff_lookup {β} (l : List (Str × β)) (h : (l.map Prod.fst).Nodup) (k : Str) (v : β) :
+    (k, v) ∈ l ↔ lookup k l = some v := by
+  induction l with
+  | nil => simp [lookup]
+  | cons p rest ih =>
+    obtain ⟨k', v'⟩ := p
+    simp only [List.map_cons, List.nodup_cons] at h
+    unfold lookup
+    by_cases hk : k' = k
+    · subst hk
+      simp only [List.mem_cons, Prod.mk.injEq, true_and, if_true, Option.some.injEq]
+      constructor
+      · rintro (h1 | h1)
+        · exact h1.symm
+        · exact absurd (List.mem_map.mpr ⟨(k', v), h1, rfl⟩) h.1
+      · intro h1; exact Or.inl h1.symm
+    · simp only [hk, if_false, List.mem_cons, Prod.mk.injEq, ← ih h.2]
+      constructor
+      · rintro (⟨h1, _⟩ | h1)
+        · exact absurd h1.symm hk
+        · exact h1
+      · intro h1; exact Or.inr h1
+
+theorem keys_upsert' {β} (k : Str) (v : β) (l : List (Str × β)) (x : Str) :
+    x ∈ (upsert k v l).map Prod.fst ↔ x = k ∨ x ∈ l.map Prod.fst := by
+  induction l with
+  | nil => simp [upsert]
+  | cons p rest ih =>
+    obtain ⟨k', v'⟩ := p
+    unfold upsert
+    by_cases h : k' = k
+    · subst h; simp
+    · simp only [h, if_false, List.map_cons, List.mem_cons, ih]
+      constructor
+      · rintro (h1 | h1 | h1)
+        · exact Or.inr (Or.inl h1)
+        · exact Or.inl h1
+        · exact Or.inr (Or.inr h1)
+      · rintro (h1 | h1 | h1)
+        · exact Or.inr (Or.inl h1)
+        · exact Or.inl h1
+        · exact Or.inr (Or.inr h1)
+
+theorem nodup_upsert' {β} (k : Str) (v : β) (l : List (Str × β)) (h : (l.map Prod.fst).Nodup) :
+    ((upsert k v l).map Prod.fst).Nodup := by
+  induction l with
+  | nil => simp [upsert]
+  | cons p rest ih =>
+    obtain ⟨k', v'⟩ := p
+    simp only [List.map_cons, List.nodup_cons] at h
+    unfold upsert
+    by_cases hk : k' = k
+    · subst hk; simp only [if_true, List.map_cons, List.nodup_cons]; exact h
+    · simp only [hk, if_false, List.map_cons, List.nodup_cons]
+      refine ⟨?_, ih h.2⟩
+      rw [keys_upsert']
+      rintro (h1 | h1)
+      · exact hk h1
+      · exact h.1 h1
+
+theorem mem_upsert {β} (k : Str) (v : β) (l : List (Str × β)) (p : Str × β) (h : p ∈ upsert k v l) :
+    p = (k, v) ∨ p ∈ l := by
+  induction l with
+  | nil => simp [upsert] at h; exact Or.inl h
+  | cons q rest ih =>
+    obtain ⟨k', v'⟩ := q
+    unfold upsert at h
+    by_cases hk : k' = k
+    · simp only [hk, if_true, List.mem_cons] at h
+      rcases h with h | h
+      · exact Or.inl h
+      · exact Or.inr (List.mem_cons_of_mem _ h)
+    · simp only [hk, if_false, List.mem_cons] at h
+      rcases h with h | h
+      · exact Or.inr (by simp [h])
+      · rcases ih h with h | h
+        · exact Or.inl h
+        · exact Or.inr (List.mem_cons_of_mem _ h)
+
+theorem nodup_map_inj {α β} (f : α → β) (l : List α) (hf : ∀ a b, f a = f b → a = b) (hl : l.Nodup) : (l.map f).Nodup := by
+  induction l with
+  | nil => simp
+  | cons a t ih =>
+    simp only [List.nodup_cons] at hl
+    simp only [List.map_cons, List.nodup_cons, List.mem_map]
+    refine ⟨?_, ih hl.2⟩
+    rintro ⟨b, hb, hfb⟩
+    exact hl.1 (hf b a hfb ▸ hb)
+
+/-- representation invariant of the nested dict -/
+structure WF (s : State) : Prop where
+  outer : (s.map Prod.fst).Nodup
+  inner : ∀ p ∈ s, (p.2.map Prod.fst).Nodup ∧ p.2 ≠ [] ∧ ∀ q ∈ p.2, sle p.1 q.1 = true ∧ 0 ≤ q.2
+
+theorem norm_sle (a b : Str) : sle (norm a b).1 (norm a b).2 = true := by
+  unfold norm
+  cases h : sle a b
+  · simp only [Bool.false_eq_true, if_false]
+    rcases sle_total a b with h' | h'
+    · rw [h] at h'; cases h'
+    · exact h'
+  · simp [h]
+
+theorem wf_set (s s' : State) (a b : Str) (v : Int) (hwf : WF s) (h : set s a b v = .ok s') : WF s' := by
+  unfold set at h
+  by_cases hv : v < 0
+  · simp [hv] at h
+  · simp only [hv, if_false] at h
+    injection h with h
+    subst h
+    constructor
+    · exact nodup_upsert' _ _ _ hwf.outer
+    · intro p hp
+      rcases mem_upsert _ _ _ p hp with rfl | hp
+      · refine ⟨?_, ?_, ?_⟩
+        · apply nodup_upsert'
+          cases hl : lookup (norm a b).1 s with
+          | none => simp
+          | some inner =>
+            exact (hwf.inner ((norm a b).1, inner) ((mem_iff_lookup s hwf.outer _ _).mpr hl)).1
+        · intro hnil
+          have := upsert_ne_nil (norm a b).2 v ((lookup (norm a b).1 s).getD [])
+          simp only at hnil
+          rw [hnil] at this; simp at this
+        · intro q hq
+          rcases mem_upsert _ _ _ q hq with rfl | hq
+          · exact ⟨norm_sle a b, by omega⟩
+          · cases hl : lookup (norm a b).1 s with
+            | none => rw [hl] at hq; simp at hq
+            | some inner =>
+              rw [hl] at hq
+              exact (hwf.inner ((norm a b).1, inner) ((mem_iff_lookup s hwf.outer _ _).mpr hl)).2.2 q hq
+      · exact hwf.inner p hp
+
+theorem wf_run (ops : List Op) : WF (run ops) := by
+  unfold run
+  suffices h : ∀ s, WF s → WF (ops.foldl stepOp s) from h [] ⟨by simp, by intro p hp; cases hp⟩
+  induction ops with
+  | nil => intro s h; exact h
+  | cons op rest ih =>
+    intro s hs
+    apply ih
+    cases op with
+    | get a b => exact hs
+    | len => exact hs
+    | set a b v =>
+      simp only [stepOp]
+      cases h : set s a b v with
+      | error e => exact hs
+      | ok s' => exact wf_set s s' a b v hs h
+
+/-- a pair is stored -/
+def Stored (s : State) (o i : Str) : Prop := ∃ inner v, lookup o s = some inner ∧ lookup i inner = some v
+
+theorem mem_items_iff (s : State) (hwf : WF s) (o i : Str) (v : Int) :
+    (o, i, v) ∈ items s ↔ ∃ inner, lookup o s = some inner ∧ lookup i inner = some v := by
+  unfold items
+  simp only [List.mem_flatMap, List.mem_map, Prod.mk.injEq]
+  constructor
+  · rintro ⟨p, hp, q, hq, rfl, rfl, rfl⟩
+    refine ⟨p.2, (mem_iff_lookup s hwf.outer p.1 p.2).mp hp, ?_⟩
+    exact (mem_iff_lookup p.2 (hwf.inner p hp).1 q.1 q.2).mp hq
+  · rintro ⟨inner, h1, h2⟩
+    have hp := (mem_iff_lookup s hwf.outer o inner).mpr h1
+    exact ⟨(o, inner), hp, (i, v), (mem_iff_lookup inner (hwf.inner _ hp).1 i v).mpr h2, rfl, rfl, rfl⟩
+
+theorem len_eq_items (s : State) : len s = (items s).length := by
+  unfold len items
+  induction s with
+  | nil => rfl
+  | cons p rest ih =>
+    simp only [List.map_cons, List.sum_cons, List.flatMap_cons, List.length_append, List.length_map]
+    rw [ih]
+
+/-- each stored unordered pair is listed exactly once, under its ordered key, with the value a read returns -/
+theorem items_spec (s : State) (hwf : WF s) :
+    ((items s).map (fun t => (t.1, t.2.1))).Nodup ∧
+    ∀ o i v, (o, i, v) ∈ items s → sle o i = true ∧ get s o i = v ∧ 0 ≤ v := by
+  constructor
+  · unfold items
+    have key : ∀ (l : State), (l.map Prod.fst).Nodup → (∀ p ∈ l, (p.2.map Prod.fst).Nodup) →
+        ((l.flatMap (fun p => p.2.map (fun q => (p.1, q.1, q.2)))).map (fun t => (t.1, t.2.1))).Nodup := by
+      intro l
+      induction l with
+      | nil => intro _ _; simp
+      | cons p rest ih =>
+        intro h1 h2
+        simp only [List.map_cons, List.nodup_cons] at h1
+        simp only [List.flatMap_cons, List.map_append, List.nodup_append]
+        refine ⟨?_, ih h1.2 (fun q hq => h2 q (List.mem_cons_of_mem _ hq)), ?_⟩
+        · simp only [List.map_map]
+          have hinner := h2 p List.mem_cons_self
+          have : (p.2.map ((fun t : Str × Str × Int => (t.1, t.2.1)) ∘ fun q => (p.1, q.1, q.2))) =
+              (p.2.map Prod.fst).map (fun k => (p.1, k)) := by simp [List.map_map, Function.comp_def]
+          rw [this]
+          exact nodup_map_inj _ _ (fun a b hab => (Prod.mk.inj hab).2) hinner
+        · intro x hx y hy hxy
+          subst hxy
+          simp only [List.mem_map, List.mem_flatMap] at hx hy
+          obtain ⟨t, ⟨q, _, rfl⟩, rfl⟩ := hx
+          obtain ⟨t', ⟨p', hp', q', _, rfl⟩, heq⟩ := hy
+          simp only [Prod.mk.injEq] at heq
+          exact h1.1 (List.mem_map.mpr ⟨p', hp', heq.1⟩)
+    exact key s hwf.outer (fun p hp => (hwf.inner p hp).1)
+  · intro o i v h
+    obtain ⟨inner, h1, h2⟩ := (mem_items_iff s hwf o i v).mp h
+    have hp := (mem_iff_lookup s hwf.outer o inner).mpr h1
+    have hq := (mem_iff_lookup inner (hwf.inner _ hp).1 i v).mpr h2
+    obtain ⟨hs, hv⟩ := (hwf.inner _ hp).2.2 (i, v) hq
+    refine ⟨hs, ?_, hv⟩
+    unfold get norm
+    simp only at hs
+    simp only [hs, if_true, h1]
+    have hne : inner.isEmpty = false := by
+      cases inner with
+      | nil => cases hq
+      | cons _ _ => rfl
+    simp [hne, h2]
+
+theorem stored_set (s s' : State) (a b : Str) (v : Int) (h : set s a b v = .ok s') (o i : Str) :
+    Stored s' o i ↔ (o, i) = norm a b ∨ Stored s o i := by
+  unfold set at h
+  by_cases hv : v < 0
+  · simp [hv] at h
+  · simp only [hv, if_false] at h
+    injection h with h
+    subst h
+    unfold Stored
+    by_cases ho : o = (norm a b).1
+    · subst ho
+      by_cases hi : i = (norm a b).2
+      · subst hi
+        constructor
+        · intro _; exact Or.inl rfl
+        · intro _; exact ⟨_, v, lookup_upsert_same _ _ _, lookup_upsert_same _ _ _⟩
+      · have hne : ¬ (((norm a b).1, i) = norm a b) := by
+          intro hh; apply hi; rw [← hh]
+        constructor
+        · rintro ⟨inner, w, h1, h2⟩
+          rw [lookup_upsert_same] at h1
+          injection h1 with h1; subst h1
+          rw [lookup_upsert_other _ _ _ _ hi] at h2
+          cases hl : lookup (norm a b).1 s with
+          | none => rw [hl] at h2; simp [lookup] at h2
+          | some inner0 => rw [hl] at h2; exact Or.inr ⟨inner0, w, rfl, h2⟩
+        · rintro (h | ⟨inner0, w, h1, h2⟩)
+          · exact absurd h hne
+          · refine ⟨_, w, lookup_upsert_same _ _ _, ?_⟩
+            rw [lookup_upsert_other _ _ _ _ hi, h1]; exact h2
+    · rw [lookup_upsert_other _ _ _ _ ho]
+      have hne : ¬ ((o, i) = norm a b) := by
+        intro hh; apply ho; rw [← hh]
+      simp [hne]
+
+/-- **A pair is stored exactly when an accepted `set` addressed it (in either order).** -/
+theorem stored_run (ops : List Op) (o i : Str) :
+    Stored (run ops) o i ↔ ∃ a b v, Op.set a b v ∈ ops ∧ 0 ≤ v ∧ norm a b = (o, i) := by
+  unfold run
+  suffices h : ∀ s, Stored (ops.foldl stepOp s) o i ↔
+      (Stored s o i ∨ ∃ a b v, Op.set a b v ∈ ops ∧ 0 ≤ v ∧ norm a b = (o, i)) by
+    rw [h []]
+    simp [Stored, lookup]
+  induction ops with
+  | nil => intro s; simp
+  | cons op rest ih =>
+    intro s
+    simp only [List.foldl_cons]
+    rw [ih]
+    cases op with
+    | get a b => simp [stepOp]
+    | len => simp [stepOp]
+    | set a b v =>
+      simp only [stepOp]
+      cases hs : set s a b v with
+      | error e =>
+        have hv : v < 0 := by
+          unfold set at hs
+          by_cases hv : v < 0
+          · exact hv
+          · simp [hv] at hs
+        simp only [List.mem_cons]
+        constructor
+        · rintro (h | ⟨a', b', v', h1, h2, h3⟩)
+          · exact Or.inl h
+          · exact Or.inr ⟨a', b', v', Or.inr h1, h2, h3⟩
+        · rintro (h | ⟨a', b', v', h1 | h1, h2, h3⟩)
+          · exact Or.inl h
+          · injection h1 with e1 e2 e3; subst e3; omega
+          · exact Or.inr ⟨a', b', v', h1, h2, h3⟩
+      | ok s' =>
+        have hv : 0 ≤ v := by
+          unfold set at hs
+          by_cases hv : v < 0
+          · simp [hv] at hs
+          · omega
+        rw [stored_set s s' a b v hs]
+        simp only [List.mem_cons]
+        constructor
+        · rintro ((h | h) | ⟨a', b', v', h1, h2, h3⟩)
+          · exact Or.inr ⟨a, b, v, Or.inl rfl, hv, h.symm⟩
+          · exact Or.inl h
+          · exact Or.inr ⟨a', b', v', Or.inr h1, h2, h3⟩
+        · rintro (h | ⟨a', b', v', h1 | h1, h2, h3⟩)
+          · exact Or.inl (Or.inr h)
+          · injection h1 with e1 e2 e3; subst e1 e2 e3; exact Or.inl (Or.inl h3.symm)
+          · exact Or.inr ⟨a', b', v', h1, h2, h3⟩
+
+end Hpv.Sim
+
+namespace Hpv.Sim
+
+/-! ### metadata codec -/
+
+theorem splitOn_no (c : Nat) (s : Str) (h : c ∉ s) : splitOn c s = [s] := by
+  induction s with
+  | nil => rfl
+  | cons x xs ih =>
+    simp only [List.mem_cons, not_or] at h
+    have hx : ¬ x = c := fun e => h.1 e.symm
+    simp only [splitOn, hx, if_false, ih h.2]
+
+theorem splitOn_append (c : Nat) (p r : Str) (h : c ∉ p) : splitOn c (p ++ c :: r) = p :: splitOn c r := by
+  induction p with
+  | nil => simp [splitOn]
+  | cons x xs ih =>
+    simp only [List.mem_cons, not_or] at h
+    have hx : ¬ x = c := fun e => h.1 e.symm
+    simp only [List.cons_append, splitOn, hx, if_false, ih h.2]
+
+theorem splitOn_joinWith (c : Nat) (parts : List Str) (hne : parts ≠ []) (h : ∀ p ∈ parts, c ∉ p) :
+    splitOn c (joinWith c parts) = parts := by
+  induction parts with
+  | nil => exact absurd rfl hne
+  | cons p rest ih =>
+    cases rest with
+    | nil => simp only [joinWith]; exact splitOn_no c p (h p List.mem_cons_self)
+    | cons q ps =>
+      simp only [joinWith]
+      rw [splitOn_append c p _ (h p List.mem_cons_self)]
+      rw [ih (by simp) (fun x hx => h x (List.mem_cons_of_mem _ hx))]
+
+theorem upsert_not_mem {β} (k : Str) (v : β) (l : List (Str × β)) (h : k ∉ l.map Prod.fst) : upsert k v l = l ++ [(k, v)] := by
+  induction l with
+  | nil => rfl
+  | cons p rest ih =>
+    obtain ⟨k', v'⟩ := p
+    simp only [List.map_cons, List.mem_cons, not_or] at h
+    have hk : ¬ k' = k := fun e => h.1 e.symm
+    simp only [upsert, hk, if_false, List.cons_append, ih h.2]
+
+/-- metadata whose keys and values avoid the forbidden characters, with distinct keys, and not empty
+(`to_csv` always adds the `created` stamp) -/
+structure MetaOk (forb : List Nat) (m : Meta) : Prop where
+  clean : ∀ kv ∈ m, hasForbidden forb kv.1 = false ∧ hasForbidden forb kv.2 = false
+  keys : (m.map Prod.fst).Nodup
+  nonempty : m ≠ []
+
+theorem not_mem_of_clean (forb : List Nat) (s : Str) (c : Nat) (hc : forb.contains c = true) (h : hasForbidden forb s = false) :
+    c ∉ s := by
+  intro hin
+  unfold hasForbidden at h
+  rw [List.any_eq_false] at h
+  exact h c hin hc
+
+theorem foldl_decode (items : List (Str × Str)) (acc : Meta)
+    (hclean : ∀ kv ∈ items, equals ∉ kv.1 ∧ equals ∉ kv.2)
+    (hnd : (items.map Prod.fst).Nodup) (hdis : ∀ kv ∈ items, kv.1 ∉ acc.map Prod.fst) :
+    (items.map (fun kv => kv.1 ++ equals :: kv.2)).foldl decodeItem (.ok acc) = .ok (acc ++ items) := by
+  induction items generalizing acc with
+  | nil => simp
+  | cons kv rest ih =>
+    obtain ⟨k, v⟩ := kv
+    have hc := hclean (k, v) List.mem_cons_self
+    have hsplit : splitOn equals (k ++ equals :: v) = [k, v] := by
+      rw [splitOn_append equals k v hc.1, splitOn_no equals v hc.2]
+    simp only [List.map_cons, List.nodup_cons] at hnd
+    simp only [List.map_cons, List.foldl_cons, decodeItem, hsplit]
+    rw [upsert_not_mem k v acc (hdis (k, v) List.mem_cons_self)]
+    rw [ih (acc ++ [(k, v)]) (fun x hx => hclean x (List.mem_cons_of_mem _ hx)) hnd.2]
+    · simp
+    · intro x hx
+      simp only [List.map_append, List.map_cons, List.map_nil, List.mem_append, List.mem_singleton, not_or]
+      refine ⟨hdis x (List.mem_cons_of_mem _ hx), ?_⟩
+      intro hxk
+      exact hnd.1 (hxk ▸ List.mem_map.mpr ⟨x, hx, rfl⟩)
+
+/-- **Metadata round trip**: for any table of forbidden characters that contains both separators (and, for the
+reader, both line breaks), decoding the encoded metadata gives the metadata back. -/
+theorem meta_round_trip (forb : List Nat) (htab : TableOk forb = true) (m : Meta) (hm : MetaOk forb m) :
+    ∃ s, encodeMeta forb m = .ok s ∧ decodeMeta s = .ok m ∧ (10 : Nat) ∉ s ∧ (13 : Nat) ∉ s := by
+  unfold TableOk at htab
+  simp only [Bool.and_eq_true] at htab
+  obtain ⟨⟨⟨hsemi, heq⟩, hlf⟩, hcr⟩ := htab
+  have hany : (m.any fun kv => hasForbidden forb kv.1 || hasForbidden forb kv.2) = false := by
+    rw [List.any_eq_false]
+    intro kv hkv
+    obtain ⟨h1, h2⟩ := hm.clean kv hkv
+    simp [h1, h2]
+  refine ⟨joinWith semicolon (m.map (fun kv => kv.1 ++ equals :: kv.2)), by simp [encodeMeta, hany], ?_, ?_, ?_⟩
+  · unfold decodeMeta
+    rw [splitOn_joinWith semicolon _ (by simpa using hm.nonempty)]
+    · have := foldl_decode m [] (fun kv hkv => ⟨not_mem_of_clean forb _ _ heq (hm.clean kv hkv).1,
+        not_mem_of_clean forb _ _ heq (hm.clean kv hkv).2⟩) hm.keys (by intro kv _; simp)
+      simpa using this
+    · intro p hp
+      obtain ⟨kv, hkv, rfl⟩ := List.mem_map.mp hp
+      simp only [List.mem_append, List.mem_cons, not_or]
+      exact ⟨not_mem_of_clean forb _ _ hsemi (hm.clean kv hkv).1, by decide,
+        not_mem_of_clean forb _ _ hsemi (hm.clean kv hkv).2⟩
+  all_goals
+    intro hin
+    -- a character of the joined string is a separator or a character of some key / value
+    have key : ∀ (c : Nat) (parts : List Str), c ∈ joinWith semicolon parts → c = semicolon ∨ ∃ p ∈ parts, c ∈ p := by
+      intro c parts
+      induction parts with
+      | nil => intro h; simp [joinWith] at h
+      | cons p rest ih =>
+        cases rest with
+        | nil => intro h; exact Or.inr ⟨p, List.mem_cons_self, by simpa [joinWith] using h⟩
+        | cons q ps =>
+          intro h
+          simp only [joinWith, List.mem_append, List.mem_cons] at h
+          rcases h with h | h | h
+          · exact Or.inr ⟨p, List.mem_cons_self, h⟩
+          · exact Or.inl h
+          · rcases ih h with h | ⟨p', hp', hc⟩
+            · exact Or.inl h
+            · exact Or.inr ⟨p', List.mem_cons_of_mem _ hp', hc⟩
+    rcases key _ _ hin with h | ⟨p, hp, hc⟩
+    · revert h; decide
+    · obtain ⟨kv, hkv, rfl⟩ := List.mem_map.mp hp
+      simp only [List.mem_append, List.mem_cons] at hc
+      rcases hc with hc | hc | hc
+      · first
+        | exact not_mem_of_clean forb _ _ hlf (hm.clean kv hkv).1 hc
+        | exact not_mem_of_clean forb _ _ hcr (hm.clean kv hkv).1 hc
+      · revert hc; decide
+      · first
+        | exact not_mem_of_clean forb _ _ hlf (hm.clean kv hkv).2 hc
+        | exact not_mem_of_clean forb _ _ hcr (hm.clean kv hkv).2 hc
+
+/-- metadata containing a forbidden character is rejected instead of being written -/
+theorem meta_rejected (forb : List Nat) (m : Meta) (kv : Str × Str) (hkv : kv ∈ m)
+    (h : hasForbidden forb kv.1 = true ∨ hasForbidden forb kv.2 = true) : encodeMeta forb m = .error .valueError := by
+  have : (m.any fun kv => hasForbidden forb kv.1 || hasForbidden forb kv.2) = true := by
+    rw [List.any_eq_true]
+    exact ⟨kv, hkv, by rcases h with h | h <;> simp [h]⟩
+  simp [encodeMeta, this]
+
+end Hpv.Sim
+
+namespace Hpv.Sim
+
+/-! ### the item listing determines the container (the logical core of the CSV round trip) -/
+
+def itemOp (t : Str × Str × Int) : Op := Op.set t.1 t.2.1 t.2.2
+
+/-- what `from_csv` does with the rows that `to_csv` wrote: one `set_similarity` per listed item -/
+def rebuild (s : State) : State := run ((items s).map itemOp)
+
+theorem norm_of_sle (o i : Str) (h : sle o i = true) : norm o i = (o, i) := by simp [norm, h]
+
+theorem spec_items (L : List (Str × Str × Int)) (hsle : ∀ t ∈ L, sle t.1 t.2.1 = true ∧ 0 ≤ t.2.2)
+    (hnd : (L.map (fun t => (t.1, t.2.1))).Nodup) (x y : Str) :
+    (∀ v, ((norm x y).1, (norm x y).2, v) ∈ L → spec (L.map itemOp) x y = v) ∧
+    ((∀ v, ((norm x y).1, (norm x y).2, v) ∉ L) → spec (L.map itemOp) x y = 0) := by
+  induction L with
+  | nil =>
+    constructor
+    · intro v h; cases h
+    · intro _; rfl
+  | cons t rest ih =>
+    obtain ⟨o, i, w⟩ := t
+    have ht := hsle (o, i, w) List.mem_cons_self
+    simp only at ht
+    simp only [List.map_cons, List.nodup_cons] at hnd
+    obtain ⟨ih1, ih2⟩ := ih (fun t ht => hsle t (List.mem_cons_of_mem _ ht)) hnd.2
+    have hw : ¬ w < 0 := by omega
+    simp only [List.map_cons, itemOp, spec, hw, if_false, norm_of_sle o i ht.1]
+    constructor
+    · intro v hv
+      rcases List.mem_cons.mp hv with h | h
+      · injection h with h1 h2; injection h2 with h2 h3
+        have : (o, i) = norm x y := by rw [← h1, ← h2]
+        simp [this, h3]
+      · have hne : ¬ ((o, i) = norm x y) := by
+          intro heq
+          apply hnd.1
+          rw [heq]
+          exact List.mem_map.mpr ⟨_, h, rfl⟩
+        simp only [hne, if_false]
+        exact ih1 v h
+    · intro hno
+      have hne : ¬ ((o, i) = norm x y) := by
+        intro heq
+        apply hno w
+        rw [← heq]; exact List.mem_cons_self
+      simp only [hne, if_false]
+      exact ih2 (fun v hv => hno v (List.mem_cons_of_mem _ hv))
+
+theorem get_not_stored (s : State) (hwf : WF s) (x y : Str) (h : ∀ v, ((norm x y).1, (norm x y).2, v) ∉ items s) :
+    get s x y = 0 := by
+  unfold get
+  simp only
+  cases hl : lookup (norm x y).1 s with
+  | none => rfl
+  | some inner =>
+    simp only
+    split
+    · rfl
+    · cases hi : lookup (norm x y).2 inner with
+      | none => rfl
+      | some v => exact absurd ((mem_items_iff s hwf _ _ v).mpr ⟨inner, hl, hi⟩) (h v)
+
+/-- **Rebuilding from the item listing preserves every read** (both key orders, self pairs, stored zeros). -/
+theorem rebuild_get (s : State) (hwf : WF s) (x y : Str) : get (rebuild s) x y = get s x y := by
+  unfold rebuild
+  rw [get_run]
+  obtain ⟨hnd, hprop⟩ := items_spec s hwf
+  -- the reversed item list has the same properties
+  have hsle : ∀ t ∈ (items s).reverse, sle t.1 t.2.1 = true ∧ 0 ≤ t.2.2 := by
+    intro t ht
+    obtain ⟨h1, _, h3⟩ := hprop t.1 t.2.1 t.2.2 (List.mem_reverse.mp ht)
+    exact ⟨h1, h3⟩
+  have hnd' : ((items s).reverse.map (fun t => (t.1, t.2.1))).Nodup := by
+    rw [List.map_reverse]; exact (List.reverse_perm _).symm.nodup hnd
+  rw [← List.map_reverse]
+  obtain ⟨h1, h2⟩ := spec_items (items s).reverse hsle hnd' x y
+  by_cases hex : ∃ v, ((norm x y).1, (norm x y).2, v) ∈ items s
+  · obtain ⟨v, hv⟩ := hex
+    rw [h1 v (List.mem_reverse.mpr hv)]
+    obtain ⟨_, hg, _⟩ := hprop _ _ v hv
+    -- get s x y = get s (norm x y) by symmetry of the key normalisation
+    have : get s x y = get s (norm x y).1 (norm x y).2 := by
+      unfold norm
+      cases hxy : sle x y
+      · simp only [Bool.false_eq_true, if_false]; exact get_comm s x y
+      · simp
+    rw [this, hg]
+  · have hno : ∀ v, ((norm x y).1, (norm x y).2, v) ∉ items s := fun v hv => hex ⟨v, hv⟩
+    rw [h2 (fun v hv => hno v (List.mem_reverse.mp hv)), get_not_stored s hwf x y hno]
+
+end Hpv.Sim
